@@ -153,6 +153,50 @@ def _work(args):
     return agg
 
 
+def _work_isolated(args):
+    """Run one chunk in a child forked from this (pristine, never-ran-a-case) pool worker.  Process-global state that
+    code under test may keep (class-level caches, module globals) can then leak only between the runs of one chunk, and a
+    chunk is a deterministic list of run indices: a violation that needs such a leak is reproducible by replaying the chunk
+    prefix in a fresh interpreter (multi-run replay file), instead of depending on which chunks a worker happened to get."""
+    import pickle
+    if not _winit.get('q'):
+        _winit['q'] = True
+        _quiet_worker()
+    r, w = os.pipe()
+    pid = os.fork()
+    if pid == 0:
+        code = 0
+        try:
+            os.close(r)
+            try:
+                out = ('ok', _work(args))
+            except BaseException:
+                out = ('exc', traceback.format_exc())
+            data = pickle.dumps(out, protocol=pickle.HIGHEST_PROTOCOL)
+            with os.fdopen(w, 'wb') as f:
+                f.write(data)
+        except BaseException:
+            code = 1
+        finally:
+            os._exit(code)
+    os.close(w)
+    chunks = []
+    with os.fdopen(r, 'rb') as f:
+        while True:
+            b = f.read(1 << 20)
+            if not b:
+                break
+            chunks.append(b)
+    os.waitpid(pid, 0)
+    data = b''.join(chunks)
+    if not data:
+        raise RuntimeError('chunk child %s died without a result (indices %s..%s)' % (pid, args[3][0], args[3][-1]))
+    kind, val = pickle.loads(data)
+    if kind == 'exc':
+        raise RuntimeError('chunk child raised:\n' + val)
+    return val
+
+
 TIERS = {
     # property: (quick_runs, thorough_runs, chunk, per-run timeout s, quick wall cap s, thorough wall cap s)
     'C01': (2400, 40000, 20, 60, 100, 1200),
@@ -204,10 +248,49 @@ def replay_fresh(pid, path):
     return pr.returncode, pr.stdout + pr.stderr
 
 
+def _multi_replay(world, pid, prefix, case, cls, res):
+    """find a short list of preceding runs after which `case` fails with class cls in a FRESH interpreter; returns (path, res)"""
+    def attempt(cases):
+        out = {'property': pid, 'multi': [jsonable(c) for c in cases] + [jsonable(case)], 'violation': res['violation'], 'digest': None,
+               'run_seed': case['run_seed'], 'run_index': case.get('run_index'), 'master_seed': case.get('master_seed')}
+        d = os.path.join(core.VERIF_DIR, 'replays')
+        os.makedirs(d, exist_ok=True)
+        p = os.path.join(d, '%s-%s-%s-multi.json' % (pid, case.get('master_seed'), case.get('run_index')))
+        with open(p, 'w') as f:
+            json.dump(out, f, indent=1, sort_keys=True)
+        rc, txt = replay_fresh(pid, p)
+        return (rc == 1 and ('class=%s@%s same_class=True' % cls) in txt), p
+    ok, p = attempt(prefix)
+    if not ok:
+        return None, None
+    best = list(prefix)
+    # shrink: keep only the preceding runs that matter (greedy, from the far end; bounded)
+    tries = 0
+    i = 0
+    while i < len(best) and tries < 12:
+        cand = best[:i] + best[i + 1:]
+        tries += 1
+        ok, _ = attempt(cand)
+        if ok:
+            best = cand
+        else:
+            i += 1
+    ok, p = attempt(best)
+    return (p, res) if ok else (None, None)
+
+
 def cmd_replay(pid, path):
     world = load_world(pid)
     with open(path) as f:
         case = json.load(f)
+    if 'multi' in case:
+        # several runs executed one after the other in this interpreter: the violation needs state that an earlier run left behind
+        for c in case['multi'][:-1]:
+            execute(world, c)
+        last = dict(case['multi'][-1])
+        last['violation'] = case.get('violation')
+        last['digest'] = case.get('digest')
+        case = last
     res = execute(world, case, keep_log=bool(os.environ.get('VERIF_LOG')))
     if os.environ.get('VERIF_LOG'):
         for l in res.get('log', []):
@@ -282,7 +365,7 @@ def run_check(pid, tier):
                     c = next(it)
                 except StopIteration:
                     return
-                fut = ex.submit(_work, (pid, tier, master, c, run_to))
+                fut = ex.submit(_work_isolated, (pid, tier, master, c, run_to))
                 pending[fut] = c
         submit_more()
         try:
@@ -338,9 +421,16 @@ def run_check(pid, tier):
             minim_info.append({'class': list(cls), 'run_index': f['index'], 'ops_before': len(case['ops']),
                                'ops_after': len(mcase['ops']), 'executions': nexec, 'replayed': ok})
             if not ok:
-                harness_errors.append('violation %s@%s of run %d did not replay identically in a fresh interpreter (rc=%d): %s' % (
-                    cls[0], cls[1], f['index'], rc, out[-800:]))
-                continue
+                # not a function of this run alone: try the runs that preceded it in its chunk (state leaking between runs)
+                start = (f['index'] // chunk) * chunk
+                prefix = [make_case(world, pid, master, i, tier) for i in range(start, f['index'])]
+                mpath, mres = _multi_replay(world, pid, prefix, case, cls, f['res'])
+                if mpath is None:
+                    harness_errors.append('violation %s@%s of run %d did not replay identically in a fresh interpreter (rc=%d), nor did its '
+                                          'chunk prefix: %s' % (cls[0], cls[1], f['index'], rc, out[-600:]))
+                    continue
+                minim_info[-1].update(replayed=True, needs_preceding_runs=True)
+                path, mcase, mres = mpath, case, mres
             e = known_match(world, pid, mcase, mres['violation'])
             if e is not None:
                 known_hit[e['signature']] = e
